@@ -677,6 +677,14 @@ func (root *Root) validateDirUse(where string, loc Location, du *DirectiveUse) (
 					// Might as well replace the coerced value since it is really
 					// what is needed, once the load is known to be valid. (No
 					// comparison first, lists and objects are not comparable.)
+					if !schemaValue(v) {
+						// Coerced into the Go type an application bound to the
+						// input type, what a resolver wants but not a value
+						// of the schema. Once more without that type.
+						if v, err = plainCoerce(a.Type, copyValue(av.Value)); err != nil {
+							continue
+						}
+					}
 					av := av
 					if root.coerced == nil {
 						// Not a load but a request being validated. The
